@@ -1,8 +1,118 @@
 import FtDriver.Json
+import FtDriver.C05
 open Lean (Json)
 namespace FtDriver
 open Ft
 
-def handleC01 (_j : Json) : Except String Verdict := throw "C01: not implemented"
+/-- the executable side of C01 on the implementation's raw snapshot: uniform depth, singly boxed
+    integer leaves, coordinates strictly increasing, coords/payloads paired (the harness emits a
+    tagged object for anything else, which fails here) -/
+def rawWF : Nat → Json → Bool
+  | 0, j => match j with
+    | .num n => n.exponent == 0
+    | _ => false
+  | d + 1, j =>
+    match j.getArr? with
+    | .error _ => false
+    | .ok arr =>
+      let rows := arr.toList.map (fun e =>
+        match e.getArr? with
+        | .ok p => if p.size == 2 then (match p[0]!.getInt? with | .ok c => some (c, p[1]!) | _ => none) else none
+        | _ => none)
+      rows.all (·.isSome) &&
+      (let cs := rows.filterMap (fun r => r.map (·.1))
+       (cs.zip cs.tail).all (fun p => decide (p.1 < p.2))) &&
+      rows.all (fun r => match r with | some (_, sub) => rawWF d sub | none => false)
+
+def treeArgOfJson (j : Json) : TreeArg Int := ⟨fun d => (parseTree d j).toOption⟩
+
+def optIntField (j : Json) (k : String) : Option Int :=
+  match j.getObjVal? k with
+  | .ok v => v.getInt?.toOption
+  | _ => none
+
+/-- JSON op → model op; `none` for operation kinds the C01 model does not cover -/
+def parseMutOp (dflt : Int) (j : Json) : Except String (Option (MutOp Int)) := do
+  let k ← fStr j "k"
+  let at_ := match j.getObjVal? "at" with | .ok a => (asInts a).toOption.getD [] | _ => []
+  match k with
+  | "ref" => pure (some (.ref (← asInts (← field j "p"))))
+  | "posref" => pure (some (.posref at_ (← fInt j "c")))
+  | "append" => pure (some (.append at_ (← fInt j "c") (treeArgOfJson (← field j "v"))))
+  | "extend" => pure (some (.extend at_ (treeArgOfJson (← field j "f"))))
+  | "setitem" =>
+    let v ← field j "v"
+    pure (some (.setitem at_ (← fNat j "pos") (optIntField j "c") (if v.isNull then none else some (treeArgOfJson v))))
+  | "clear" => pure (some (.clear at_))
+  | "updcoords" => pure (some (.updCoords at_ (← fInt j "mul") (← fInt j "add")))
+  | "updpayloads" => let a ← fInt j "add"; pure (some (.updPayloads at_ (fun v => v + a)))
+  | "denseref" =>
+    let s ← fInt j "s"; let e ← fInt j "e"; let st ← fNat j "step"
+    let n := ((e - s).toNat + st - 1) / st
+    let cs : List Int := (List.range n).map (fun (i : Nat) => s + Int.ofNat i * Int.ofNat st)
+    let w ← (← fArr j "w").mapM (fun r => do
+      match (← asInts r) with | [c, v] => pure (c, v) | _ => throw "denseref write")
+    pure (some (.denseRef at_ cs w))
+  | "assignf" => pure (some (.assignF at_ (treeArgOfJson (← field j "f"))))
+  | "populate" =>
+    let acts ← parseActs (← field j "acts")
+    pure (some (.populate at_ (treeArgOfJson (← field j "a"))
+      (fun p cur av => leafAct dflt acts p cur av)
+      (fun p => match acts.get p with | some .skip => true | _ => false)))
+  | "iaddf" =>
+    pure (some (.populate at_ (treeArgOfJson (← field j "f")) (fun _ cur av => cur + av) (fun _ => false)))
+  | _ => pure none
+
+def handleC01 (j : Json) : Except String Verdict := do
+  let D ← fNat j "d"
+  let dflt := fIntD j "dflt" 0
+  let steps ← fArr j "impl"
+  let mut okAgree := true
+  let mut okSpec := true
+  let mut why := ""
+  let mut tags : List String := []
+  match D with
+  | 0 => return { agree := true, spec := true, tags := ["OUT_OF_MODEL"] }
+  | d + 1 =>
+    for st in steps do
+      let opJ ← field st "op"
+      let k ← fStr opJ "k"
+      let before ← field st "before"
+      let after ← field st "after"
+      let outcome ← fStr st "outcome"
+      if !tags.contains k then tags := k :: tags
+      if !tags.contains outcome then tags := outcome :: tags
+      -- specification on the implementation's observation
+      if !(rawWF (d + 1) after) then
+        okSpec := false
+        if why.isEmpty then why := s!"{k}: tree after the step is not well-formed ({outcome})"
+      if outcome == "rejected-order" && before.compress != after.compress then
+        okSpec := false
+        if why.isEmpty then why := s!"{k}: rejected for coordinate order but the tree changed"
+      if outcome.startsWith "ERR" then
+        okSpec := false
+        if why.isEmpty then why := s!"{k}: unexpected exception {outcome}"
+      -- correspondence with the model, step by step from the implementation's own state
+      match parseTree (d + 1) before with
+      | .error _ => pure ()
+      | .ok tb =>
+        if wfB (d + 1) tb then
+          match (← parseMutOp dflt opJ) with
+          | none => if !tags.contains "unmodelled" then tags := "unmodelled" :: tags
+          | some op =>
+            let (mt, mo) := mstep dflt d tb op
+            match parseTree (d + 1) after with
+            | .error _ =>
+              okAgree := false
+              if why.isEmpty then why := s!"{k}: model yields a tree, implementation's state does not parse"
+            | .ok ta =>
+              if !(treeEq (d + 1) mt ta) then
+                okAgree := false
+                if why.isEmpty then why := s!"{k}: tree after the step differs from the model ({(treeToJson (d+1) mt).compress})"
+              if outcome == "ok" || outcome == "rejected-order" || outcome == "rejected-index" then
+                if mo.toString != outcome && !(mo == .badPath) then
+                  okAgree := false
+                  if why.isEmpty then why := s!"{k}: outcome {outcome}, model {mo.toString}"
+    pure { agree := okAgree, spec := okSpec, tags, why }
 
 end FtDriver
